@@ -148,7 +148,10 @@ def gen_pipeline(rng: random.Random, kind: str, **over):
             circuits = [sc, sc]
         else:
             cfg2 = base_cfg(rng, kinds, nvars=cfg.nvars, id_mode=cfg.id_mode, structured=True)
-            circuits, meta = gen.gen_compatible_pair(rng, cfg, cfg2, n=n)
+            if rng.random() < 0.3:
+                circuits, meta = gen.gen_twin_pair(rng, cfg, n=n)
+            else:
+                circuits, meta = gen.gen_compatible_pair(rng, cfg, cfg2, n=n)
         domains = dict(meta["domains"])
         ids = sorted(domains)
         bases = list(dict.fromkeys(circuits))
